@@ -796,6 +796,19 @@ func (lb *LoadBalancer) findHealthyBackend(r *http.Request) *Backend {
 			return backend
 		}
 	}
+
+	// The picks of requests that are dispatched at the same time share the strategy's
+	// cursor: with another request's pick between every two of ours, all of ours can land on
+	// the same ejected backends. Before answering "no healthy backend" look at every backend
+	// there is now
+	lb.mutex.RLock()
+	backends = lb.strategy.GetBackends()
+	lb.mutex.RUnlock()
+	for _, backend := range backends {
+		if lb.IsBackendHealthy(backend) {
+			return backend
+		}
+	}
 	return nil
 }
 
